@@ -6,6 +6,8 @@ From Coq Require Import String List.
 From TS Require Import Model.Str Model.Outcome Model.Unicode Model.Types Model.Parse Model.Lang.Common Model.Lang.Decl
                        Model.Lang.Swift Model.Lang.Scala Model.Lang.Go Model.Lang.Kotlin Model.Lang.Python Spec.C12Spec Proofs.C12Obs.
 From TS Require Proofs.C12 Proofs.C12_Swift Proofs.C12_Go Proofs.C12_Kotlin Proofs.C12_Python.
+From TS Require Import Model.MultiFile Model.Lang.TypeScript Spec.C12TSSpec.
+From TS Require Model.Writer Spec.C17Spec Proofs.C02_Witness Proofs.C12Multi Proofs.C12MultiGo Proofs.C12MultiSwift Proofs.C12MultiStateless Proofs.C12MultiTS Proofs.C12MultiWitness.
 Import ListNotations.
 
 (* Swift, single file: for every program and configuration (any prefix, mappings, decorators), ()
@@ -185,3 +187,570 @@ Theorem C12_python_default_translation_refuted :
                     In (lit "parse_rfc3339") uses /\ ~ In (lit "parse_rfc3339") defs /\ c12_good uses defs = false.
 Proof. exact Proofs.C12.c12_python_default_translation_refuted. Qed.
 Print Assumptions C12_python_default_translation_refuted.
+
+(* ---------------------------------------------------------------------------------------------
+   MULTI-FILE (folder output, `-d`) MODE.  The language value lives as long as the run: generate_crates
+   (Model/MultiFile.v) threads the printer state from one crate's file to the next, in plan order.  Vocabulary
+   (Proofs/C12Multi.v):
+     <l>_multi_decls uc cfg st pd     the declarations of ONE file and the state reached, from the state st the earlier
+                                      crates left (= <l>_decls of the single-file theorems when st is the initial state)
+     c12_<l>_observe_multi .. st pd   the observation (names used, names defined/imported) of that file, read by
+                                      the SAME readers of Spec/C12Spec.v as the single-file observation
+     <l>_multi_gen uc cfg             the multi-file generator in the shape generate_crates takes
+   Each language has: a layout theorem tying <l>_multi_decls to the TEXT <l>_generate_multi writes, the per-file
+   judgement from any admissible state, and the run: every file of generate_crates satisfies the judgement. *)
+
+(* Python, what py_multi_decls is: py_generate_multi succeeds with `text` IF AND ONLY IF py_multi_decls succeeds
+   with declarations ds and the same final state, and text is the header, the import block / TypeVar lines / helper
+   functions of the state REACHED after the last declaration, then the rendering of exactly ds. *)
+Theorem C12_multi_python_layout :
+  forall (uc : unicode) (cfg : py_config) (st : py_state) (pd : parsed) (text : str) (st' : py_state),
+    py_generate_multi uc cfg st pd = Ok (text, st') <->
+    exists ds, Proofs.C12Multi.py_multi_decls uc cfg st pd = Ok (ds, st') /\
+               text = py_begin_file cfg ++ py_write_all_imports st' ++ py_write_custom_translations st' ++
+                      List.concat (map py_render_decl ds).
+Proof. exact Proofs.C12Multi.py_multi_layout. Qed.
+Print Assumptions C12_multi_python_layout.
+
+(* from the initial state of a run the multi-file observation is the single-file one *)
+Theorem C12_multi_python_observe_initial :
+  forall (uc : unicode) (cfg : py_config) (pd : parsed),
+    Proofs.C12Multi.c12_py_observe_multi uc cfg py_empty_state pd = c12_py_observe uc cfg pd.
+Proof. exact Proofs.C12Multi.c12_py_observe_multi_empty. Qed.
+Print Assumptions C12_multi_python_observe_initial.
+
+(* the invariant on printer states, in words; the initial state of a run (py_empty_state, as the CLI model and
+   the driver start generate_crates) satisfies it *)
+Theorem C12_multi_python_state_ok_meaning :
+  (forall st : py_state,
+     Proofs.C12Multi.c12_py_state_ok st = true <->
+     (py_type_variables st <> [] -> In (lit "TypeVar") (c12_py_imported st)) /\
+     (In (lit "datetime") (py_custom_types st) -> In (lit "datetime") (c12_py_imported st))) /\
+  Proofs.C12Multi.c12_py_state_ok py_empty_state = true.
+Proof. split; [exact Proofs.C12Multi.c12_py_state_ok_spec|exact Proofs.C12Multi.c12_py_empty_state_ok]. Qed.
+Print Assumptions C12_multi_python_state_ok_meaning.
+
+(* Python, ONE FILE from ANY state that satisfies the invariant - whatever else the earlier crates left in it
+   (imports, TypeVars, helper translations: they only make the header define MORE): the judgement of C12_python,
+   under the same hypotheses on THIS crate (dom, outside the two classes); and the state reached satisfies the
+   invariant again (this half needs dom only). *)
+Theorem C12_multi_python_file :
+  forall (uc : unicode) (cfg : py_config) (st0 : py_state) (pd : parsed),
+    Proofs.C12Multi.c12_py_state_ok st0 = true -> c12_py_dom cfg (items_of pd) = true ->
+    (forall uses defs, Proofs.C12Multi.c12_py_observe_multi uc cfg st0 pd = Ok (uses, defs) ->
+       c12_py_known cfg pd = None -> c12_good uses defs = true) /\
+    (forall ds st, Proofs.C12Multi.py_multi_decls uc cfg st0 pd = Ok (ds, st) -> Proofs.C12Multi.c12_py_state_ok st = true).
+Proof.
+  intros uc cfg st0 pd Hinv Hdom. split.
+  - intros uses defs H Hk. exact (Proofs.C12Multi.c12_python_multi_file uc cfg st0 pd uses defs Hinv H Hdom Hk).
+  - intros ds st H. exact (Proofs.C12Multi.c12_py_state_ok_step uc cfg st0 pd ds st Hinv H Hdom).
+Qed.
+Print Assumptions C12_multi_python_file.
+
+(* Python, THE RUN: for every plan (any number of crates, any data), every configuration and every initial state
+   satisfying the invariant (py_empty_state does), every file generate_crates produces - file number i, provided the
+   crates up to and including number i are in the domain - is what py_generate_multi returns on crate number i's
+   data from a state st_i that satisfies the invariant; its text is the layout above over the declarations ds;
+   and its observation satisfies the per-file judgement of C12_python whenever crate number i is outside the two
+   classes: every helper name the file uses - in the body or in the header written from the accumulated state -
+   is imported, declared as a TypeVar or defined as a helper function by that file's header.  No hypothesis on the
+   classes of the EARLIER crates.  When the run completes on a plan inside the domain, the final state satisfies
+   the invariant.  (Carry-over makes a later file import or define more than it uses - see the pins below -, never
+   less.) *)
+Theorem C12_multi_python :
+  forall (uc : unicode) (cfg : py_config) (st0 : py_state) (plan : list out_plan)
+         (files : list (str * Writer.gen_result)) (fin : outcome py_state),
+    Proofs.C12Multi.c12_py_state_ok st0 = true ->
+    generate_crates (Proofs.C12Multi.py_multi_gen uc cfg) st0 plan = (files, fin) ->
+    (forall i fname text,
+       nth_error files i = Some (fname, Writer.Generated text) ->
+       Forall (fun p => c12_py_dom cfg (items_of (op_data p)) = true) (firstn (S i) plan) ->
+       exists p st_i st_i' ds uses defs,
+         nth_error plan i = Some p /\ fname = op_file p /\ Proofs.C12Multi.c12_py_state_ok st_i = true /\
+         py_generate_multi uc cfg st_i (op_data p) = Ok (text, st_i') /\
+         Proofs.C12Multi.py_multi_decls uc cfg st_i (op_data p) = Ok (ds, st_i') /\
+         text = py_begin_file cfg ++ py_write_all_imports st_i' ++ py_write_custom_translations st_i' ++
+                List.concat (map py_render_decl ds) /\
+         Proofs.C12Multi.c12_py_observe_multi uc cfg st_i (op_data p) = Ok (uses, defs) /\
+         (c12_py_known cfg (op_data p) = None -> c12_good uses defs = true)) /\
+    (forall st', fin = Ok st' -> Forall (fun p => c12_py_dom cfg (items_of (op_data p)) = true) plan ->
+       Proofs.C12Multi.c12_py_state_ok st' = true).
+Proof. exact Proofs.C12Multi.c12_multi_python. Qed.
+Print Assumptions C12_multi_python.
+
+(* the generator of C12_multi_python is py_generate_multi (the crate name and the import list are not used) *)
+Theorem C12_multi_python_gen_meaning :
+  forall uc cfg st c im pd, Proofs.C12Multi.py_multi_gen uc cfg st c im pd = py_generate_multi uc cfg st pd.
+Proof. reflexivity. Qed.
+Print Assumptions C12_multi_python_gen_meaning.
+
+(* NON-VACUITY (vm_compute), workspaces of Proofs/C12MultiWitness.v parsed by the multi-file front end:
+     alpha/src/lib.rs:  #[typeshare] struct Page<T> { item: T, at: OffsetDateTime }
+     beta/src/lib.rs:   #[typeshare] struct Plain { n: u32 }                          (ws_py_plain)
+   Both crates are in the domain and outside the classes; the run from py_empty_state completes; beta.py is
+   y_beta_plain_py byte for byte: although Plain uses neither a type variable nor datetime, its header carries the
+   imports, `T = TypeVar("T")` and the datetime helper functions crate alpha left in the printer, and imports what
+   these use.  py_multi_observations = the observation of every file, the state threaded as generate_crates does. *)
+Theorem C12_multi_python_nonvacuous_plain :
+  exists plan t_alpha st_fin,
+    Proofs.C12MultiWitness.y_plan Python Proofs.C12MultiWitness.ws_py_plain = Some plan /\
+    map op_crate plan = [lit "alpha"; lit "beta"] /\
+    forallb (fun p => c12_py_dom Proofs.C12MultiWitness.y_py_cfg (items_of (op_data p))) plan = true /\
+    forallb (fun p => Proofs.C12MultiWitness.y_none (c12_py_known Proofs.C12MultiWitness.y_py_cfg (op_data p))) plan = true /\
+    generate_crates (Proofs.C12Multi.py_multi_gen uc_exec Proofs.C12MultiWitness.y_py_cfg) py_empty_state plan =
+      ([(lit "alpha.py", Writer.Generated t_alpha); (lit "beta.py", Writer.Generated Proofs.C12MultiWitness.y_beta_plain_py)], Ok st_fin) /\
+    py_type_variables st_fin = [lit "T"] /\ py_custom_types st_fin = [lit "datetime"] /\
+    Proofs.C12MultiWitness.py_multi_observations Proofs.C12MultiWitness.y_py_cfg py_empty_state plan =
+      [(lit "alpha.py", Ok (Proofs.C12MultiWitness.y_py_uses_generic (lit "T"), Proofs.C12MultiWitness.y_py_defs_alpha));
+       (lit "beta.py", Ok ([lit "TypeVar"; lit "datetime"; lit "BaseModel"], Proofs.C12MultiWitness.y_py_defs_alpha))] /\
+    c12_good (Proofs.C12MultiWitness.y_py_uses_generic (lit "T")) Proofs.C12MultiWitness.y_py_defs_alpha = true /\
+    c12_good [lit "TypeVar"; lit "datetime"; lit "BaseModel"] Proofs.C12MultiWitness.y_py_defs_alpha = true.
+Proof. exact Proofs.C12MultiWitness.c12_multi_python_nonvacuous_plain. Qed.
+Print Assumptions C12_multi_python_nonvacuous_plain.
+
+(* ... and with beta/src/lib.rs: #[typeshare] struct Other<U> { item: U, at: OffsetDateTime } (ws_py_again): the
+   second crate uses generics + datetime too; its file declares both T and U and uses U *)
+Theorem C12_multi_python_nonvacuous_again :
+  exists plan t_alpha t_beta st_fin,
+    Proofs.C12MultiWitness.y_plan Python Proofs.C12MultiWitness.ws_py_again = Some plan /\
+    map op_crate plan = [lit "alpha"; lit "beta"] /\
+    forallb (fun p => c12_py_dom Proofs.C12MultiWitness.y_py_cfg (items_of (op_data p))) plan = true /\
+    forallb (fun p => Proofs.C12MultiWitness.y_none (c12_py_known Proofs.C12MultiWitness.y_py_cfg (op_data p))) plan = true /\
+    generate_crates (Proofs.C12Multi.py_multi_gen uc_exec Proofs.C12MultiWitness.y_py_cfg) py_empty_state plan =
+      ([(lit "alpha.py", Writer.Generated t_alpha); (lit "beta.py", Writer.Generated t_beta)], Ok st_fin) /\
+    py_type_variables st_fin = [lit "T"; lit "U"] /\
+    Proofs.C12MultiWitness.py_multi_observations Proofs.C12MultiWitness.y_py_cfg py_empty_state plan =
+      [(lit "alpha.py", Ok (Proofs.C12MultiWitness.y_py_uses_generic (lit "T"), Proofs.C12MultiWitness.y_py_defs_alpha));
+       (lit "beta.py", Ok (Proofs.C12MultiWitness.y_py_uses_generic (lit "U"),
+                           lit "T" :: lit "U" :: tl Proofs.C12MultiWitness.y_py_defs_alpha))] /\
+    c12_good (Proofs.C12MultiWitness.y_py_uses_generic (lit "U")) (lit "T" :: lit "U" :: tl Proofs.C12MultiWitness.y_py_defs_alpha) = true.
+Proof. exact Proofs.C12MultiWitness.c12_multi_python_nonvacuous_again. Qed.
+Print Assumptions C12_multi_python_nonvacuous_again.
+
+(* REGRESSION PIN (vm_compute) of the seeded change "the import table is drained after every file while TypeVars
+   and helper translations carry over" (py_drained_gen: the multi-file generator started from the incoming state
+   with py_imports emptied).  The state alpha leaves satisfies the invariant, the drained one does not; on ws_py_plain
+   the drained run writes a different beta.py, whose header uses TypeVar and datetime without importing them. *)
+Theorem C12_multi_python_drain_regression :
+  exists plan p_alpha p_beta t_alpha st1 t_beta st2 uses defs,
+    Proofs.C12MultiWitness.y_plan Python Proofs.C12MultiWitness.ws_py_plain = Some plan /\ plan = [p_alpha; p_beta] /\
+    py_generate_multi uc_exec Proofs.C12MultiWitness.y_py_cfg py_empty_state (op_data p_alpha) = Ok (t_alpha, st1) /\
+    Proofs.C12Multi.c12_py_state_ok st1 = true /\
+    Proofs.C12Multi.c12_py_state_ok (Proofs.C12MultiWitness.py_drain st1) = false /\
+    generate_crates (Proofs.C12MultiWitness.py_drained_gen Proofs.C12MultiWitness.y_py_cfg) py_empty_state plan =
+      ([(lit "alpha.py", Writer.Generated t_alpha); (lit "beta.py", Writer.Generated t_beta)], Ok st2) /\
+    t_beta <> Proofs.C12MultiWitness.y_beta_plain_py /\
+    Proofs.C12Multi.c12_py_observe_multi uc_exec Proofs.C12MultiWitness.y_py_cfg (Proofs.C12MultiWitness.py_drain st1) (op_data p_beta) = Ok (uses, defs) /\
+    In (lit "TypeVar") uses /\ ~ In (lit "TypeVar") defs /\ In (lit "datetime") uses /\ ~ In (lit "datetime") defs /\
+    c12_good uses defs = false.
+Proof. exact Proofs.C12MultiWitness.c12_multi_python_drain_regression. Qed.
+Print Assumptions C12_multi_python_drain_regression.
+
+(* SHARPNESS (vm_compute) of the hypothesis of C12_multi_python on the crates BEFORE file i.  Workspace ws_py_taint:
+     alpha/src/lib.rs:  #[typeshare] struct A { d: datetime }     (a user type called `datetime`: outside c12_py_dom)
+     beta/src/lib.rs:   #[typeshare] struct Plain { n: u32 }      (inside the domain, outside the classes)
+   alpha's field prints as the text `datetime`, which registers the datetime helper functions without the datetime
+   import; the state alpha leaves violates the invariant and beta.py carries the helper functions, using datetime
+   without importing it: in multi-file mode a crate outside the domain spoils the files of LATER crates. *)
+Theorem C12_multi_python_earlier_dom_needed :
+  exists plan p_alpha p_beta t_alpha st1 uses defs,
+    Proofs.C12MultiWitness.y_plan Python Proofs.C12MultiWitness.ws_py_taint = Some plan /\ plan = [p_alpha; p_beta] /\
+    c12_py_dom Proofs.C12MultiWitness.y_py_cfg (items_of (op_data p_alpha)) = false /\
+    c12_py_dom Proofs.C12MultiWitness.y_py_cfg (items_of (op_data p_beta)) = true /\
+    c12_py_known Proofs.C12MultiWitness.y_py_cfg (op_data p_beta) = None /\
+    py_generate_multi uc_exec Proofs.C12MultiWitness.y_py_cfg py_empty_state (op_data p_alpha) = Ok (t_alpha, st1) /\
+    Proofs.C12Multi.c12_py_state_ok st1 = false /\
+    Proofs.C12Multi.c12_py_observe_multi uc_exec Proofs.C12MultiWitness.y_py_cfg st1 (op_data p_beta) = Ok (uses, defs) /\
+    In (lit "datetime") uses /\ ~ In (lit "datetime") defs /\ c12_good uses defs = false.
+Proof. exact Proofs.C12MultiWitness.c12_multi_python_earlier_dom_needed. Qed.
+Print Assumptions C12_multi_python_earlier_dom_needed.
+
+(* ---- Go, multi-file.  The import set (a BTreeSet in the language value) is never cleared between files; begin_file
+   inserts encoding/json into it again for every file; the import block of a file is written from the set reached
+   after the file's last item.  A set that only grows makes a later file import MORE than it uses, never less: no
+   invariant on the incoming state is needed, the theorems hold from ANY state. *)
+
+(* what go_multi_decls is: go_generate_multi succeeds with `text` IF AND ONLY IF go_multi_decls succeeds with
+   declarations ds and the same final import set, and text is begin_file's text, the import block of the set
+   REACHED, then the rendering of exactly ds *)
+Theorem C12_multi_go_layout :
+  forall (uc : unicode) (cfg : go_config) (st : go_state) (pd : parsed) (text : str) (st' : go_state),
+    go_generate_multi uc cfg st pd = Ok (text, st') <->
+    exists ds header st1,
+      Proofs.C12MultiGo.go_multi_decls uc cfg st pd = Ok (ds, st') /\ go_begin_file cfg st = Ok (header, st1) /\
+      text = header ++ go_write_all_imports st' ++ List.concat (map go_render_decl ds).
+Proof. exact Proofs.C12MultiGo.go_multi_layout. Qed.
+Print Assumptions C12_multi_go_layout.
+
+Theorem C12_multi_go_observe_initial :
+  forall (uc : unicode) (cfg : go_config) (pd : parsed),
+    Proofs.C12MultiGo.c12_go_observe_multi uc cfg [] pd = c12_go_observe uc cfg pd.
+Proof. exact Proofs.C12MultiGo.c12_go_observe_multi_empty. Qed.
+Print Assumptions C12_multi_go_observe_initial.
+
+(* ONE FILE from ANY import set: the judgement of C12_go (configurations without acronyms) / C12_go_acronyms *)
+Theorem C12_multi_go_file :
+  forall (uc : unicode) (cfg : go_config) (st0 : go_state) (pd : parsed) (uses defs : list str),
+    Proofs.C12MultiGo.c12_go_observe_multi uc cfg st0 pd = Ok (uses, defs) -> c12_go_dom cfg (items_of pd) = true ->
+    c12_good uses defs = true.
+Proof. exact Proofs.C12MultiGo.c12_go_multi_file. Qed.
+Print Assumptions C12_multi_go_file.
+
+Theorem C12_multi_go_file_acronyms :
+  forall (uc : unicode), unicode_ok uc ->
+  forall (cfg : go_config) (st0 : go_state) (pd : parsed) (uses defs : list str),
+    Proofs.C12MultiGo.c12_go_observe_multi uc cfg st0 pd = Ok (uses, defs) -> c12_go_dom_acr cfg (items_of pd) = true ->
+    c12_good uses defs = true.
+Proof. exact Proofs.C12MultiGo.c12_go_multi_file_acronyms. Qed.
+Print Assumptions C12_multi_go_file_acronyms.
+
+(* THE RUN, from any initial import set (the CLI model starts with the empty one), any plan: every file
+   generate_crates produces is what go_generate_multi returns on that crate's data from the set st_i the earlier crates
+   left; its text is the layout above; every package its declarations refer to (time. in a type at any depth, json. in
+   the methods of a tagged enum) is in the import block written into THAT file, whenever that crate is in the domain.
+   No hypothesis on the other crates.  go_multi_gen uc cfg st _ _ pd = go_generate_multi uc cfg st pd. *)
+Theorem C12_multi_go :
+  forall (uc : unicode) (cfg : go_config) (st0 : go_state) (plan : list out_plan)
+         (files : list (str * Writer.gen_result)) (fin : outcome go_state),
+    generate_crates (Proofs.C12MultiGo.go_multi_gen uc cfg) st0 plan = (files, fin) ->
+    forall i fname text,
+      nth_error files i = Some (fname, Writer.Generated text) ->
+      exists p st_i st_i' ds header st1 uses defs,
+        nth_error plan i = Some p /\ fname = op_file p /\
+        go_generate_multi uc cfg st_i (op_data p) = Ok (text, st_i') /\
+        Proofs.C12MultiGo.go_multi_decls uc cfg st_i (op_data p) = Ok (ds, st_i') /\
+        go_begin_file cfg st_i = Ok (header, st1) /\
+        text = header ++ go_write_all_imports st_i' ++ List.concat (map go_render_decl ds) /\
+        Proofs.C12MultiGo.c12_go_observe_multi uc cfg st_i (op_data p) = Ok (uses, defs) /\
+        (c12_go_dom cfg (items_of (op_data p)) = true -> c12_good uses defs = true).
+Proof. exact Proofs.C12MultiGo.c12_multi_go_noacr. Qed.
+Print Assumptions C12_multi_go.
+
+Theorem C12_multi_go_acronyms :
+  forall (uc : unicode), unicode_ok uc ->
+  forall (cfg : go_config) (st0 : go_state) (plan : list out_plan)
+         (files : list (str * Writer.gen_result)) (fin : outcome go_state),
+    generate_crates (Proofs.C12MultiGo.go_multi_gen uc cfg) st0 plan = (files, fin) ->
+    forall i fname text,
+      nth_error files i = Some (fname, Writer.Generated text) ->
+      exists p st_i st_i' ds header st1 uses defs,
+        nth_error plan i = Some p /\ fname = op_file p /\
+        go_generate_multi uc cfg st_i (op_data p) = Ok (text, st_i') /\
+        Proofs.C12MultiGo.go_multi_decls uc cfg st_i (op_data p) = Ok (ds, st_i') /\
+        go_begin_file cfg st_i = Ok (header, st1) /\
+        text = header ++ go_write_all_imports st_i' ++ List.concat (map go_render_decl ds) /\
+        Proofs.C12MultiGo.c12_go_observe_multi uc cfg st_i (op_data p) = Ok (uses, defs) /\
+        (c12_go_dom_acr cfg (items_of (op_data p)) = true -> c12_good uses defs = true).
+Proof. exact Proofs.C12MultiGo.c12_multi_go_acr. Qed.
+Print Assumptions C12_multi_go_acronyms.
+
+(* non-vacuity (vm_compute, workspace ws_py_plain: only crate alpha has an OffsetDateTime): beta.go is y_beta_go byte
+   for byte - it imports "time" as well (carried over), more than it uses *)
+Theorem C12_multi_go_nonvacuous :
+  exists plan t_alpha,
+    Proofs.C12MultiWitness.y_plan Go Proofs.C12MultiWitness.ws_py_plain = Some plan /\
+    map op_crate plan = [lit "alpha"; lit "beta"] /\
+    forallb (fun p => c12_go_dom Proofs.C12MultiWitness.y_go_cfg (items_of (op_data p))) plan = true /\
+    generate_crates (Proofs.C12MultiGo.go_multi_gen uc_exec Proofs.C12MultiWitness.y_go_cfg) [] plan =
+      ([(lit "alpha.go", Writer.Generated t_alpha); (lit "beta.go", Writer.Generated Proofs.C12MultiWitness.y_beta_go)],
+       Ok [lit "encoding/json"; lit "time"]) /\
+    Proofs.C12MultiWitness.go_multi_observations Proofs.C12MultiWitness.y_go_cfg [] plan =
+      [(lit "alpha.go", Ok ([lit "time"], [lit "json"; lit "time"])); (lit "beta.go", Ok ([], [lit "json"; lit "time"]))].
+Proof. exact Proofs.C12MultiWitness.c12_multi_go_nonvacuous. Qed.
+Print Assumptions C12_multi_go_nonvacuous.
+
+(* ---- Swift, multi-file.  No file of a multi-crate run defines CodableVoid (end_file writes it only in single-file
+   mode); should_emit_codable_void lives in the language value; post_generation writes the shared Codable.swift. *)
+
+(* what sw_multi_decls is: the text of a file is begin_file's text and the rendering of exactly its declarations -
+   nothing after them *)
+Theorem C12_multi_swift_layout :
+  forall (uc : unicode) (cfg : sw_config) (st : sw_state) (pd : parsed) (text : str) (st' : sw_state),
+    sw_generate_multi uc cfg st pd = Ok (text, st') <->
+    exists ds, Proofs.C12MultiSwift.sw_multi_decls uc cfg st pd = Ok (ds, st') /\
+               text = sw_begin_file cfg ++ List.concat (map sw_render_decl ds).
+Proof. exact Proofs.C12MultiSwift.sw_multi_layout. Qed.
+Print Assumptions C12_multi_swift_layout.
+
+(* ONE FILE from ANY flag (C12_swift_flag_any_state on the declarations of the file as sorted and written): the file
+   defines nothing, never clears the flag, and leaves it set when it spells CodableVoid *)
+Theorem C12_multi_swift_file :
+  forall (uc : unicode) (cfg : sw_config) (st0 : sw_state) (pd : parsed) (ds : list sw_decl) (st : sw_state),
+    Proofs.C12MultiSwift.sw_multi_decls uc cfg st0 pd = Ok (ds, st) -> c12_sw_dom cfg (items_of pd) = true ->
+    c12_sw_defs ds = [] /\ (st0 = true -> st = true) /\ (c12_sw_uses ds <> [] -> st = true).
+Proof. exact Proofs.C12MultiSwift.c12_sw_file_from. Qed.
+Print Assumptions C12_multi_swift_file.
+
+(* THE RUN.  For every plan inside the domain, any initial flag (the CLI model starts with false) and every run that
+   completes with final flag fin:
+   (1) a flag that was set stays set;
+   (2) every file is what sw_generate_multi returns on that crate's data, its text is the layout above over ds, it
+       defines no helper, and if ds spells CodableVoid - () at any depth, in ANY crate, first or last - then fin = true;
+   (3) when fin = true the run hands the writer Some (get_codable_contents ()) (sw_multi_codable: what
+       ocaml/drv_c14.ml computes, swift.rs:535 post_generation), the CodableVoid declaration defines CodableVoid, and
+       from ANY file system, at any time, into any folder, the writer of Model/Writer.v exits with status 0 and leaves
+       <folder>/Codable.swift holding exactly the rendering of that declaration (C17's Codable theorems say when the
+       file is rewritten and when it is left untouched; here: what it holds).
+   So the definition of every CodableVoid a file uses is in the shared Codable.swift of the same output folder. *)
+Theorem C12_multi_swift :
+  forall (uc : unicode) (cfg : sw_config) (st0 : sw_state) (plan : list out_plan)
+         (files : list (str * Writer.gen_result)) (fin : sw_state),
+    Forall (fun p => c12_sw_dom cfg (items_of (op_data p)) = true) plan ->
+    generate_crates (Proofs.C12MultiSwift.sw_multi_gen uc cfg) st0 plan = (files, Ok fin) ->
+    (st0 = true -> fin = true) /\
+    (forall i fname text, nth_error files i = Some (fname, Writer.Generated text) ->
+       exists p st_i st_i' ds,
+         nth_error plan i = Some p /\ fname = op_file p /\
+         sw_generate_multi uc cfg st_i (op_data p) = Ok (text, st_i') /\
+         Proofs.C12MultiSwift.sw_multi_decls uc cfg st_i (op_data p) = Ok (ds, st_i') /\
+         text = sw_begin_file cfg ++ List.concat (map sw_render_decl ds) /\
+         c12_sw_defs ds = [] /\
+         (c12_sw_uses ds <> [] -> fin = true)) /\
+    (fin = true ->
+       Proofs.C12MultiSwift.sw_multi_codable cfg (Ok fin) = Some (sw_codable_contents cfg) /\
+       c12_sw_decl_defs (sw_codable_void cfg) = [sw_CODABLE_VOID] /\
+       forall (s : Writer.fs) (now : Writer.mtime) (folder : str),
+         Writer.content (Writer.run s now (multi_outputs folder files (Proofs.C12MultiSwift.sw_multi_codable cfg (Ok fin))))
+                        (Spec.C17Spec.codable_path folder) = Some (sw_render_decl (sw_codable_void cfg)) /\
+         snd (Writer.run_full s now (multi_outputs folder files (Proofs.C12MultiSwift.sw_multi_codable cfg (Ok fin)))) = Writer.ExitOk).
+Proof. exact Proofs.C12MultiSwift.c12_multi_swift. Qed.
+Print Assumptions C12_multi_swift.
+
+(* sw_multi_codable, in full: Some contents exactly when the run completed with the flag set *)
+Theorem C12_multi_swift_codable_meaning :
+  forall (cfg : sw_config) (fin : outcome sw_state),
+    Proofs.C12MultiSwift.sw_multi_codable cfg fin = match fin with Ok true => Some (sw_codable_contents cfg) | _ => None end.
+Proof. reflexivity. Qed.
+Print Assumptions C12_multi_swift_codable_meaning.
+
+(* NON-VACUITY (vm_compute).  Workspace ws_sw_unit:
+     alpha/src/lib.rs:  #[typeshare] struct Ping { nothing: () }
+     beta/src/lib.rs:   #[typeshare] struct Plain { n: u32 }
+   only the FIRST crate uses ().  Alpha.swift and Beta.swift byte for byte; Alpha spells CodableVoid twice and defines
+   nothing, Beta neither; the run ends with the flag set; on an empty folder "o" the writer leaves the two files and
+   o/Codable.swift = y_codable_swift (blank line, the doc line, `public struct CodableVoid: Codable {}`). *)
+Theorem C12_multi_swift_nonvacuous :
+  exists plan p_alpha p_beta ds_alpha ds_beta,
+    Proofs.C12MultiWitness.y_plan Swift Proofs.C12MultiWitness.ws_sw_unit = Some plan /\ plan = [p_alpha; p_beta] /\
+    map op_crate plan = [lit "alpha"; lit "beta"] /\
+    forallb (fun p => c12_sw_dom Proofs.C12MultiWitness.y_sw_cfg (items_of (op_data p))) plan = true /\
+    generate_crates (Proofs.C12MultiSwift.sw_multi_gen uc_exec Proofs.C12MultiWitness.y_sw_cfg) false plan =
+      ([(lit "Alpha.swift", Writer.Generated Proofs.C12MultiWitness.y_alpha_swift);
+        (lit "Beta.swift", Writer.Generated Proofs.C12MultiWitness.y_beta_swift)], Ok true) /\
+    Proofs.C12MultiSwift.sw_multi_decls uc_exec Proofs.C12MultiWitness.y_sw_cfg false (op_data p_alpha) = Ok (ds_alpha, true) /\
+    c12_sw_uses ds_alpha = [lit "CodableVoid"; lit "CodableVoid"] /\ c12_sw_defs ds_alpha = [] /\
+    Proofs.C12MultiSwift.sw_multi_decls uc_exec Proofs.C12MultiWitness.y_sw_cfg true (op_data p_beta) = Ok (ds_beta, true) /\
+    c12_sw_uses ds_beta = [] /\ c12_sw_defs ds_beta = [] /\
+    Writer.run_full [] 1%N (multi_outputs Proofs.C12MultiWitness.y_folder
+                              [(lit "Alpha.swift", Writer.Generated Proofs.C12MultiWitness.y_alpha_swift);
+                               (lit "Beta.swift", Writer.Generated Proofs.C12MultiWitness.y_beta_swift)]
+                              (Proofs.C12MultiSwift.sw_multi_codable Proofs.C12MultiWitness.y_sw_cfg (Ok true))) =
+      ([(Proofs.C12MultiWitness.y_path "Alpha.swift", (Proofs.C12MultiWitness.y_alpha_swift, 1%N));
+        (Proofs.C12MultiWitness.y_path "Beta.swift", (Proofs.C12MultiWitness.y_beta_swift, 1%N));
+        (Proofs.C12MultiWitness.y_path "Codable.swift", (Proofs.C12MultiWitness.y_codable_swift, 1%N))], Writer.ExitOk) /\
+    Spec.C17Spec.codable_path Proofs.C12MultiWitness.y_folder = Proofs.C12MultiWitness.y_path "Codable.swift".
+Proof. exact Proofs.C12MultiWitness.c12_multi_swift_nonvacuous. Qed.
+Print Assumptions C12_multi_swift_nonvacuous.
+
+(* REGRESSION PIN (vm_compute) of the seeded change "begin_file clears the CodableVoid flag" (sw_reset_gen: every file
+   generated from a cleared flag): the same two files, Alpha.swift still spells CodableVoid, the run ends with the
+   flag of the LAST crate and no Codable.swift is written - C12_multi_swift (2) fails for such a generator. *)
+Theorem C12_multi_swift_reset_regression :
+  exists plan,
+    Proofs.C12MultiWitness.y_plan Swift Proofs.C12MultiWitness.ws_sw_unit = Some plan /\
+    generate_crates (Proofs.C12MultiWitness.sw_reset_gen Proofs.C12MultiWitness.y_sw_cfg) false plan =
+      ([(lit "Alpha.swift", Writer.Generated Proofs.C12MultiWitness.y_alpha_swift);
+        (lit "Beta.swift", Writer.Generated Proofs.C12MultiWitness.y_beta_swift)], Ok false) /\
+    Proofs.C12MultiSwift.sw_multi_codable Proofs.C12MultiWitness.y_sw_cfg (Ok false) = None /\
+    Writer.content (Writer.run [] 1%N (multi_outputs Proofs.C12MultiWitness.y_folder
+                      [(lit "Alpha.swift", Writer.Generated Proofs.C12MultiWitness.y_alpha_swift);
+                       (lit "Beta.swift", Writer.Generated Proofs.C12MultiWitness.y_beta_swift)]
+                      (Proofs.C12MultiSwift.sw_multi_codable Proofs.C12MultiWitness.y_sw_cfg (Ok false))))
+                   (Spec.C17Spec.codable_path Proofs.C12MultiWitness.y_folder) = None.
+Proof. exact Proofs.C12MultiWitness.c12_multi_swift_reset_regression. Qed.
+Print Assumptions C12_multi_swift_reset_regression.
+
+(* ---- Kotlin, multi-file (stateless).  The file of crate c starts with kt_header_multi cfg c = the single-file
+   header with `.<c>` appended to the package: the SAME two kotlinx.serialization imports, written under the same
+   condition (a non-empty package name); then the cross-crate import lines, then the declarations. *)
+Theorem C12_multi_kotlin_header :
+  forall (cfg : kt_config) (c : str),
+    kt_begin_file_multi cfg c = kt_render_header (Proofs.C12MultiStateless.kt_header_multi cfg c) /\
+    Proofs.C12MultiStateless.kt_header_multi cfg c =
+      match kt_header_of cfg with
+      | None => None
+      | Some h => Some {| kh_version := kh_version h; kh_package := kh_package h ++ lit "." ++ c; kh_imports := kh_imports h |}
+      end /\
+    c12_kt_defs (Proofs.C12MultiStateless.kt_header_multi cfg c) = c12_kt_defs (kt_header_of cfg).
+Proof.
+  intros cfg c. split; [exact (Proofs.C12MultiStateless.kt_begin_file_multi_header cfg c)|].
+  split; [reflexivity|exact (Proofs.C12MultiStateless.c12_kt_defs_multi cfg c)].
+Qed.
+Print Assumptions C12_multi_kotlin_header.
+
+Theorem C12_multi_kotlin_layout :
+  forall (uc : unicode) (cfg : kt_config) (c : str) (im : scoped) (pd : parsed) (text : str),
+    kt_generate_multi uc cfg c im pd = Ok text <->
+    exists ds, kt_decls uc cfg pd = Ok ds /\
+               text = kt_render_header (Proofs.C12MultiStateless.kt_header_multi cfg c) ++ kt_write_imports cfg im ++
+                      List.concat (map kt_render_decl ds).
+Proof. exact Proofs.C12MultiStateless.kt_multi_layout. Qed.
+Print Assumptions C12_multi_kotlin_layout.
+
+(* THE RUN (kt_multi_gen = kt_generate_multi wrapped with a unit state, as the driver does): every file is what
+   kt_generate_multi returns on that crate's name, import list and data; its text is the layout above; outside the two
+   classes (decided on THAT crate) the annotations its declarations carry are imported by ITS header.
+   c12_kt_observe_multi uc cfg c pd = (c12_kt_uses of kt_decls, c12_kt_defs (kt_header_multi cfg c)). *)
+Theorem C12_multi_kotlin :
+  forall (uc : unicode) (cfg : kt_config) (st0 : unit) (plan : list out_plan)
+         (files : list (str * Writer.gen_result)) (fin : outcome unit),
+    generate_crates (Proofs.C12MultiStateless.kt_multi_gen uc cfg) st0 plan = (files, fin) ->
+    forall i fname text,
+      nth_error files i = Some (fname, Writer.Generated text) ->
+      exists p ds uses defs,
+        nth_error plan i = Some p /\ fname = op_file p /\
+        kt_generate_multi uc cfg (op_crate p) (op_imports p) (op_data p) = Ok text /\
+        kt_decls uc cfg (op_data p) = Ok ds /\
+        text = kt_render_header (Proofs.C12MultiStateless.kt_header_multi cfg (op_crate p)) ++ kt_write_imports cfg (op_imports p) ++
+               List.concat (map kt_render_decl ds) /\
+        Proofs.C12MultiStateless.c12_kt_observe_multi uc cfg (op_crate p) (op_data p) = Ok (uses, defs) /\
+        uses = c12_kt_uses ds /\ defs = c12_kt_defs (Proofs.C12MultiStateless.kt_header_multi cfg (op_crate p)) /\
+        (c12_kt_known cfg (op_data p) = None -> c12_good uses defs = true).
+Proof. exact Proofs.C12MultiStateless.c12_multi_kotlin. Qed.
+Print Assumptions C12_multi_kotlin.
+
+Theorem C12_multi_kotlin_nonvacuous :
+  exists plan t_alpha t_beta,
+    Proofs.C12MultiWitness.y_plan Kotlin Proofs.C12MultiWitness.ws_sw_unit = Some plan /\
+    forallb (fun p => Proofs.C12MultiWitness.y_none (c12_kt_known Proofs.C02_Witness.c02_w_kt_cfg (op_data p))) plan = true /\
+    generate_crates (Proofs.C12MultiStateless.kt_multi_gen uc_exec Proofs.C02_Witness.c02_w_kt_cfg) tt plan =
+      ([(lit "alpha.kt", Writer.Generated t_alpha); (lit "beta.kt", Writer.Generated t_beta)], Ok tt) /\
+    map (fun p => Proofs.C12MultiStateless.c12_kt_observe_multi uc_exec Proofs.C02_Witness.c02_w_kt_cfg (op_crate p) (op_data p)) plan =
+      [Ok ([lit "Serializable"], [lit "Serializable"; lit "SerialName"]);
+       Ok ([lit "Serializable"], [lit "Serializable"; lit "SerialName"])].
+Proof. exact Proofs.C12MultiWitness.c12_multi_kotlin_nonvacuous. Qed.
+Print Assumptions C12_multi_kotlin_nonvacuous.
+
+(* ---- Scala, multi-file (stateless): sc_generate is the same function in both modes.  Layout (the direction the run
+   needs): the text is begin_file's text, the package object around the rendering of the first group of declarations
+   sc_decls returns (helper aliases, aliases), the package around the rendering of the second (structs, enums). *)
+Theorem C12_multi_scala_layout :
+  forall (uc : unicode) (cfg : sc_config) (pd : parsed) (text : str),
+    sc_generate uc cfg pd = Ok text ->
+    exists head objs pkgs,
+      sc_begin_file cfg = Ok head /\ sc_decls uc cfg pd = Ok (objs, pkgs) /\
+      text = head ++
+             (if sc_unsigned_integer_used pd || negb (sc_is_empty (p_aliases pd))
+              then sc_begin_package_object cfg ++ List.concat (map sc_render_decl objs) ++ sc_end_package_object cfg else []) ++
+             (if negb (sc_is_empty (p_structs pd)) || negb (sc_is_empty (p_enums pd))
+              then sc_begin_package cfg ++ List.concat (map sc_render_decl pkgs) ++ sc_end_package cfg else []).
+Proof. exact Proofs.C12MultiStateless.sc_multi_layout. Qed.
+Print Assumptions C12_multi_scala_layout.
+
+(* THE RUN (sc_multi_gen = sc_generate wrapped with a unit state): every file is what sc_generate returns on that
+   crate's data, laid out as above over the declarations c12_sc_observe reads; every UByte/UShort/UInt/ULong the
+   declarations of THAT file spell is defined by the alias block of THAT file *)
+Theorem C12_multi_scala :
+  forall (uc : unicode) (cfg : sc_config) (st0 : unit) (plan : list out_plan)
+         (files : list (str * Writer.gen_result)) (fin : outcome unit),
+    generate_crates (Proofs.C12MultiStateless.sc_multi_gen uc cfg) st0 plan = (files, fin) ->
+    forall i fname text,
+      nth_error files i = Some (fname, Writer.Generated text) ->
+      exists p head objs pkgs uses defs,
+        nth_error plan i = Some p /\ fname = op_file p /\
+        sc_generate uc cfg (op_data p) = Ok text /\
+        sc_begin_file cfg = Ok head /\ sc_decls uc cfg (op_data p) = Ok (objs, pkgs) /\
+        text = head ++
+               (if sc_unsigned_integer_used (op_data p) || negb (sc_is_empty (p_aliases (op_data p)))
+                then sc_begin_package_object cfg ++ List.concat (map sc_render_decl objs) ++ sc_end_package_object cfg else []) ++
+               (if negb (sc_is_empty (p_structs (op_data p))) || negb (sc_is_empty (p_enums (op_data p)))
+                then sc_begin_package cfg ++ List.concat (map sc_render_decl pkgs) ++ sc_end_package cfg else []) /\
+        c12_sc_observe uc cfg (op_data p) = Ok (uses, defs) /\
+        (c12_sc_dom (op_data p) = true -> c12_good uses defs = true).
+Proof. exact Proofs.C12MultiStateless.c12_multi_scala. Qed.
+Print Assumptions C12_multi_scala.
+
+(* non-vacuity (workspace ws_sw_unit): alpha.scala uses no unsigned integer and has no alias block, beta.scala spells
+   UInt and has its own *)
+Theorem C12_multi_scala_nonvacuous :
+  exists plan t_alpha t_beta,
+    Proofs.C12MultiWitness.y_plan Scala Proofs.C12MultiWitness.ws_sw_unit = Some plan /\
+    forallb (fun p => c12_sc_dom (op_data p)) plan = true /\
+    generate_crates (Proofs.C12MultiStateless.sc_multi_gen uc_exec Proofs.C02_Witness.c02_w_sc_cfg) tt plan =
+      ([(lit "alpha.scala", Writer.Generated t_alpha); (lit "beta.scala", Writer.Generated t_beta)], Ok tt) /\
+    map (fun p => c12_sc_observe uc_exec Proofs.C02_Witness.c02_w_sc_cfg (op_data p)) plan =
+      [Ok ([], []); Ok ([lit "UInt"], [lit "UByte"; lit "UShort"; lit "UInt"; lit "ULong"])].
+Proof. exact Proofs.C12MultiWitness.c12_multi_scala_nonvacuous. Qed.
+Print Assumptions C12_multi_scala_nonvacuous.
+
+(* ---- TypeScript, multi-file.  The trailer (typescript.rs:43 end_file: ReviverFunc / ReplacerFunc) IS written in
+   multi-file mode, from types_for_custom_json_translation, a map in the language value that is never cleared between
+   files.  Generated declarations never NAME the two helpers (single-file: nothing to check); what a threaded state can
+   break is their CONTENT.  Spec/C12TSSpec.v: c12_ts_translated ds = the printed types of the members (interface
+   properties, properties of struct variants) of ds that have a reviver / replacer (Date, Uint8Array);
+   c12_ts_handled st = the types whose blocks the trailer written from st contains; c12_ts_defs st = the helper names
+   that trailer defines; c12_ts_good ds st = every translated member type is handled, and when there is one both
+   helpers are defined. *)
+Theorem C12_multi_typescript_good_meaning :
+  forall (ds : list ts_decl) (st : ts_state),
+    c12_ts_good ds st = true <->
+    (forall t, In t (c12_ts_translated ds) -> In t (c12_ts_handled st)) /\
+    (c12_ts_translated ds <> [] -> forall h, In h c12_ts_helpers -> In h (c12_ts_defs st)).
+Proof. exact Proofs.C12MultiTS.c12_ts_good_spec. Qed.
+Print Assumptions C12_multi_typescript_good_meaning.
+
+(* what ts_multi_decls is: header, cross-crate import lines, the rendering of exactly ds, the trailer of the map REACHED *)
+Theorem C12_multi_typescript_layout :
+  forall (uc : unicode) (cfg : ts_config) (st : ts_state) (im : scoped) (pd : parsed) (text : str) (st' : ts_state),
+    ts_generate_multi uc cfg st im pd = Ok (text, st') <->
+    exists ds, Proofs.C12MultiTS.ts_multi_decls uc cfg st pd = Ok (ds, st') /\
+               text = ts_begin_file cfg ++ ts_write_imports im ++ List.concat (map ts_render_decl ds) ++ ts_end_file st'.
+Proof. exact Proofs.C12MultiTS.ts_multi_layout. Qed.
+Print Assumptions C12_multi_typescript_layout.
+
+(* ONE FILE from ANY map, every program and configuration (no hypothesis): nothing registered before is forgotten, and
+   the file is good with respect to the map its own trailer is written from *)
+Theorem C12_multi_typescript_file :
+  forall (uc : unicode) (cfg : ts_config) (st0 : ts_state) (pd : parsed) (ds : list ts_decl) (st : ts_state),
+    Proofs.C12MultiTS.ts_multi_decls uc cfg st0 pd = Ok (ds, st) ->
+    incl (c12_ts_handled st0) (c12_ts_handled st) /\ c12_ts_good ds st = true.
+Proof. exact Proofs.C12MultiTS.c12_ts_file_from. Qed.
+Print Assumptions C12_multi_typescript_file.
+
+(* THE RUN, any initial map (the CLI model starts with the empty one), any plan: every file is what ts_generate_multi
+   returns on that crate's import list and data from the map st_i the earlier crates left; its text is the layout above
+   with the trailer of st_i'; the handled types only grow along the run; the file is good *)
+Theorem C12_multi_typescript :
+  forall (uc : unicode) (cfg : ts_config) (st0 : ts_state) (plan : list out_plan)
+         (files : list (str * Writer.gen_result)) (fin : outcome ts_state),
+    generate_crates (Proofs.C12MultiTS.ts_multi_gen uc cfg) st0 plan = (files, fin) ->
+    forall i fname text,
+      nth_error files i = Some (fname, Writer.Generated text) ->
+      exists p st_i st_i' ds,
+        nth_error plan i = Some p /\ fname = op_file p /\
+        ts_generate_multi uc cfg st_i (op_imports p) (op_data p) = Ok (text, st_i') /\
+        Proofs.C12MultiTS.ts_multi_decls uc cfg st_i (op_data p) = Ok (ds, st_i') /\
+        text = ts_begin_file cfg ++ ts_write_imports (op_imports p) ++ List.concat (map ts_render_decl ds) ++ ts_end_file st_i' /\
+        incl (c12_ts_handled st0) (c12_ts_handled st_i) /\
+        incl (c12_ts_handled st_i) (c12_ts_handled st_i') /\
+        c12_ts_good ds st_i' = true.
+Proof. exact Proofs.C12MultiTS.c12_multi_typescript. Qed.
+Print Assumptions C12_multi_typescript.
+
+(* non-vacuity (vm_compute, workspace ws_py_plain): alpha's member `at: Date` is registered and handled (and would not be
+   good against the empty map); beta has no translated member; beta.ts is y_beta_ts byte for byte: its declarations
+   followed by the trailer of the map alpha left *)
+Theorem C12_multi_typescript_nonvacuous :
+  exists plan p_alpha p_beta t_alpha ds_alpha ds_beta,
+    Proofs.C12MultiWitness.y_plan TypeScript Proofs.C12MultiWitness.ws_py_plain = Some plan /\ plan = [p_alpha; p_beta] /\
+    generate_crates (Proofs.C12MultiTS.ts_multi_gen uc_exec Proofs.C12MultiWitness.y_ts_cfg) [] plan =
+      ([(lit "alpha.ts", Writer.Generated t_alpha); (lit "beta.ts", Writer.Generated Proofs.C12MultiWitness.y_beta_ts)],
+       Ok [(lit "Date", [lit "at"])]) /\
+    Proofs.C12MultiTS.ts_multi_decls uc_exec Proofs.C12MultiWitness.y_ts_cfg [] (op_data p_alpha) = Ok (ds_alpha, [(lit "Date", [lit "at"])]) /\
+    c12_ts_translated ds_alpha = [lit "Date"] /\ c12_ts_good ds_alpha [(lit "Date", [lit "at"])] = true /\
+    c12_ts_good ds_alpha [] = false /\
+    Proofs.C12MultiTS.ts_multi_decls uc_exec Proofs.C12MultiWitness.y_ts_cfg [(lit "Date", [lit "at"])] (op_data p_beta) =
+      Ok (ds_beta, [(lit "Date", [lit "at"])]) /\
+    c12_ts_translated ds_beta = [] /\ c12_ts_defs [(lit "Date", [lit "at"])] = c12_ts_helpers.
+Proof. exact Proofs.C12MultiWitness.c12_multi_typescript_nonvacuous. Qed.
+Print Assumptions C12_multi_typescript_nonvacuous.
